@@ -471,3 +471,57 @@ if __name__ == '__main__':
           'globals', len(fb.globals), 'files', len(fb.files), 'wall %.1fs' % (time.time() - t))
     for u in fb.meta['units']:
         print('  ', u['summary'], 'tolerated_errors=%d' % u['tolerated_errors'])
+
+
+# ------------------------------------------------------------------------------------------------
+# E5: LLVM IR of the library units -> mutable globals and their uses (bin/spxglobals)
+
+def ir_units():
+    us = []
+    for p in sorted(glob.glob(os.path.join(SRC, 'soplex', '*.cpp'))) + [os.path.join(SRC, 'soplex_interface.cpp')]:
+        us.append(p)
+    us.append(os.path.join(VERIF, 'units', 'controls.cpp'))
+    return us
+
+
+def _emit_bc(args):
+    src, out = args
+    cmd = ['clang++', '-std=gnu++14', '-I' + SRC, '-I' + config_dir(), '-ffp-contract=off', '-O0', '-Xclang', '-disable-O0-optnone',
+           '-g1', '-emit-llvm', '-c', src, '-o', out, '-w']
+    r = subprocess.run(cmd, capture_output=True, text=True)
+    return src, r.returncode, r.stderr[-300:]
+
+
+def ir_globals():
+    """list of module records {file, functions, globals:[{name, demangled, tls, guard, uses:[...]}]} for the current tree"""
+    tool = os.path.join(VERIF, 'bin', 'spxglobals')
+    if not os.path.exists(tool):
+        raise AnalysisBroken('bin/spxglobals missing: run ./setup.sh')
+    d = extract()
+    out = os.path.join(d, 'ir_globals.json')
+    if os.path.exists(out):
+        return json.load(open(out))['modules']
+    lock = open(os.path.join(CACHE, 'lock-ir'), 'w')
+    fcntl.flock(lock, fcntl.LOCK_EX)
+    try:
+        if os.path.exists(out):
+            return json.load(open(out))['modules']
+        irdir = os.path.join(d, 'ir')
+        os.makedirs(irdir, exist_ok=True)
+        jobs = [(s, os.path.join(irdir, os.path.basename(s) + '.bc')) for s in ir_units()]
+        with ThreadPoolExecutor(max_workers=min(16, len(jobs))) as ex:
+            res = list(ex.map(_emit_bc, jobs))
+        for s, rc, err in res:
+            if rc != 0:
+                raise AnalysisBroken('cannot emit LLVM IR for %s: %s' % (s, err))
+        r = subprocess.run([tool] + [o for _, o in jobs], capture_output=True, text=True)
+        if r.returncode != 0:
+            raise AnalysisBroken('spxglobals failed: ' + r.stderr[-300:])
+        j = json.loads(r.stdout)
+        json.dump(j, open(out + '.tmp', 'w'))
+        os.rename(out + '.tmp', out)
+        shutil.rmtree(irdir, ignore_errors=True)
+        return j['modules']
+    finally:
+        fcntl.flock(lock, fcntl.LOCK_UN)
+        lock.close()
